@@ -347,6 +347,20 @@ func (x *Exec) applyContract(bc *blockCtx, in ssa.Instruction, f *ssa.Function, 
 			}
 		}
 	}
+	// any call may allocate: the allocation watermark never stays put because an
+	// assigns clause did not mention it (otherwise fresh(..) in a postcondition
+	// would contradict the caller's state)
+	if !fc.Pure || len(fc.Ensures) > 0 {
+		if _, ok := x.heapSorts["G_alloc"]; !ok {
+			x.heapSorts["G_alloc"] = "Int"
+		}
+		oldWm := x.getHeap(pre, "G_alloc")
+		if x.getHeap(bc.st, "G_alloc") == oldWm {
+			nw := x.b.Fresh("G_alloc_after_"+shortFn(name), "Int")
+			x.axiom(x.b.Cmp(">=", nw, oldWm))
+			bc.st.heaps["G_alloc"] = nw
+		}
+	}
 	// closures passed to the callee may run during the call: their effects on
 	// the caller's state are not part of the callee's frame
 	x.closureArgEffects(bc, args, name)
@@ -362,6 +376,7 @@ func (x *Exec) applyContract(bc *blockCtx, in ssa.Instruction, f *ssa.Function, 
 	}
 	post := &CEnv{x: x, st: bc.st, old: pre, vars: vars, pkg: fnPkg(f), guard: bc.reach, fc: fc, lets: ce.lets, hypo: true}
 	x.bindResults(post, sig, res)
+	nhBefore := len(x.hyps)
 	var only map[string]bool
 	if x.rootC != nil && x.rootC.UseEnsures != nil {
 		only = x.rootC.UseEnsures[name]
@@ -423,6 +438,16 @@ func (x *Exec) applyContract(bc *blockCtx, in ssa.Instruction, f *ssa.Function, 
 			}
 			x.hypTag[x.hyps[len(x.hyps)-1].ID] = [2]string{fc.Name, e.Label}
 		}
+	}
+	if len(fc.Ensures) > 0 && x.spec == 0 && x.dry == 0 && x.callCovers < 8 {
+		// vacuity guard: the path must still be feasible after the callee's
+		// postconditions were assumed (a contradictory postcondition would make
+		// everything after the call verify)
+		x.callCovers++
+		x.covers = append(x.covers, &Obligation{Name: fmt.Sprintf("cover:before-call(%s)#%d", shortFn(name), x.callCovers), Kind: "cover", Guard: bc.reach, Goal: x.b.False, NHyps: nhBefore,
+			Text: "the call site is reachable", Soft: true})
+		x.covers = append(x.covers, &Obligation{Name: fmt.Sprintf("cover:after-call(%s)#%d", shortFn(name), x.callCovers), Kind: "cover", Guard: bc.reach, Goal: x.b.False, NHyps: len(x.hyps),
+			Text: "the path stays feasible after assuming the postconditions of " + name, Soft: true})
 	}
 	if only != nil {
 		x.note("only the postconditions " + strings.Join(sortedKeys(only), ", ") + " of " + name + " are used here (useensures)")
